@@ -31,7 +31,37 @@ FALLBACK = ("From Bermuda Require Import Model.Base Model.Select.\n"
 
 
 # =============================================================================== generation
+FEBS = [(2100, "not leap (div. by 100)"), (1900, "not leap"), (2096, "leap"), (2000, "leap (div. by 400)")]
+
+
+def february_triangle(rng, k):
+    """monthly cells around a February that a `year % 4` leap rule gets wrong (1900, 2100) or right
+    (2000, 2096): periods and evaluation dates are month ends incl. Feb 28/29; plus day-level cells on
+    Feb 28 of the leap years"""
+    b = jc.bermuda()
+    year = FEBS[(k // 12) % len(FEBS)][0]
+    m = b.Metadata(country="US", details={"coverage": "BI", "state": "NY"})
+    cells = []
+    start = D(year - 1, 11, 1)
+    for p in range(5):                                   # Nov .. Mar
+        ps = month_start(start, p)
+        pe = jc.add_months_end(ps, 0)
+        for lag in rng.sample(range(0, 7), 3):
+            ev = jc.add_months_end(pe, lag)
+            if ev.year > 2100:
+                continue
+            cells.append(b.CumulativeCell(period_start=ps, period_end=pe, evaluation_date=ev,
+                                          values={"paid_loss": 100 * p + lag}, metadata=m))
+    rng.shuffle(cells)
+    return jc.mk_triangle(cells), {"layout": f"february-{year}", "basis": "cum", "n_slices": 1, "values": "int",
+                                   "slice_diff": "-", "fields": ["paid_loss"]}
+
+
 def gen_triangle(g: Gen, rng: random.Random, k: int):
+    if k % 12 == 7:
+        t, info = february_triangle(rng, k)
+        info["n_cells"] = len(t)
+        return t, info
     layouts = ["regular", "ragged", "holey", "irregular", "single_period", "single_lag", "daily"]
     layout = layouts[k % len(layouts)]
     basis = "inc" if k % 3 == 2 else "cum"
@@ -57,10 +87,27 @@ def gen_triangle(g: Gen, rng: random.Random, k: int):
             vals = {f: (v + 1 if isinstance(v, (int, float)) else v) for f, v in c.values.items()}
             extra.append(jc.with_values(c, vals))
         info["dups"] = len(extra)
-    if k % 4 == 2 and cells:       # the same metadata written differently on some cells
+    if k % 4 in (2, 3) and cells:  # the same metadata written differently among the cells of ONE slice:
+        # >= 2 detail keys filled in another order, 7 vs 7.0, True vs 1, int vs float limit
+        cache = {}
+        for i, c in enumerate(cells):
+            m2 = cache.setdefault(id(c.metadata), jc.at_least_two_details(c.metadata))
+            if m2 is not c.metadata:
+                cells[i] = jc.with_meta(c, m2)
         for i in rng.sample(range(len(cells)), max(1, len(cells) // 3)):
             cells[i] = jc.with_meta(cells[i], jc.alias_meta(cells[i].metadata, rng))
+        extra = [jc.with_meta(c, cache.get(id(c.metadata), jc.at_least_two_details(c.metadata))) for c in extra]
         info["alias"] = True
+    if k % 6 == 5 and cells:       # a second slice that differs only in WHERE a key lives
+        m0 = cells[0].metadata
+        mv, base = jc.moved_meta(m0)
+        same = [i for i, c in enumerate(cells) if c.metadata is m0]
+        if base is not m0:
+            for i in same:
+                cells[i] = jc.with_meta(cells[i], base)
+        for i in same[:6]:
+            extra.append(jc.with_meta(cells[i], mv))
+        info["moved"] = True
     cells = cells + extra
     rng.shuffle(cells)
     t = jc.mk_triangle(cells)
@@ -852,7 +899,9 @@ def prepare(ctx):
 def run(ctx):
     ctx.rule = (
         "triangles from harness/gen.py (7 layouts x cumulative/incremental x 1-3 slices x int/float/array values, "
-        "plus duplicate coordinates, equal-but-differently-written metadata, nested/overlapping periods inside a slice "
+        "plus monthly triangles around the Februaries of 1900/2000/2096/2100, slices differing only in where a key "
+        "lives (details vs loss_details / attribute vs detail key), duplicate coordinates, equal-but-differently-written "
+        "metadata inside one slice (>= 2 detail keys in another order, 7 vs 7.0, True vs 1), nested/overlapping periods inside a slice "
         "(same start other end, same end other start) and cells evaluated before their period end (negative lags)), "
         "<= ~35 cells; per triangle: clip with the literal bound 0 / 0.0 / timedelta(0) and "
         "with every bound kind at the triangle's own dates/lags, +-1 day, +-1 month, out of range, day and month "
@@ -903,7 +952,7 @@ def correspond(ctx):
         tname = f"t{k}"
         cases.add_def(tname, lit, len(t))
         ctx.hist("tri:" + describe(info) + ("/dups" if info.get("dups") else "") + ("/alias" if info.get("alias") else "")
-                 + ("/nested-periods" if info.get("nested") else "") + ("/negative-lags" if info.get("early") else ""))
+                 + ("/moved-key-slice" if info.get("moved") else "") + ("/nested-periods" if info.get("nested") else "") + ("/negative-lags" if info.get("early") else ""))
         tj = None
         for op in ops_for(t, rng, ctx.quick):
             n_ops += 1
